@@ -1,5 +1,7 @@
 (* C17 driver.  stdin: "case <id> dict" | "case <id> master x<hex>:<hash>,...", ops, "end".
-   ops: add x<hex> <hash> | addd x<hex> <hash> | get x<hex> <hash> | txt <id> | pre <n> | reset
+   ops: add x<hex> <hash> [how ..] | addd x<hex> <hash> | get x<hex> <hash> [how ..] | txt <id> | pre <n> | reset
+   (the words after <hash> say how the harness hands the text to the C++ - owning / non-owning view, prefix
+   of a longer buffer, slice, C string - and do not concern the model: intern / lookup of the text)
    A text is the number with the base-256 digits 01 <bytes>.  The model's hash function is the
    table text -> <hash> (hex, the value of the real Hash<str>, computed by the harness) built
    from the ops and the header; in master mode the predefined list is the extracted
@@ -97,8 +99,8 @@ let () =
              | _ -> ());
          let classes = ref [] in
          let parse_op l = match words l with
-           | ["add"; w; h] | ["addd"; w; h] -> classes := "a" :: !classes; Some (OIntern (text w h))
-           | ["get"; w; h] -> classes := "g" :: !classes; Some (OLookup (text w h))
+           | "add" :: w :: h :: _ | "addd" :: w :: h :: _ -> classes := "a" :: !classes; Some (OIntern (text w h))
+           | "get" :: w :: h :: _ -> classes := "g" :: !classes; Some (OLookup (text w h))
            | ["txt"; i] -> classes := "t" :: !classes; Some (OText (n_of_int (int_of_string i)))
            | ["pre"; k] -> classes := "p" :: !classes; Some (OPresize (n_of_int (int_of_string k)))
            | ["reset"] -> classes := "r" :: !classes; Some OReset
